@@ -497,6 +497,92 @@ func runC18(c *h.Ctx) {
 		checkValueC18(c, mkVal(typs[r.IntN(5)], y, mo, d, r.IntN(24), r.IntN(60), r.IntN(60), ns, off))
 	}
 
+	// values built from a time.Time that carries a named zone (t.In(zone), a
+	// parse in the process's local zone): the instant and the offset in force
+	// at that instant are kept - also inside the hour a set-back repeats, on
+	// either of its two readings
+	{
+		k := 0
+		for _, zn := range []string{"America/New_York", "Europe/Berlin", "Australia/Lord_Howe", "America/Sao_Paulo", "Asia/Kolkata", "Pacific/Chatham"} {
+			loc, err := time.LoadLocation(zn)
+			if err != nil {
+				continue
+			}
+			for _, day := range []time.Time{time.Date(2024, 11, 3, 0, 0, 0, 0, time.UTC), time.Date(2024, 10, 27, 0, 0, 0, 0, time.UTC), time.Date(2024, 4, 6, 12, 0, 0, 0, time.UTC), time.Date(2024, 3, 10, 0, 0, 0, 0, time.UTC), time.Date(2024, 6, 15, 0, 0, 0, 0, time.UTC)} {
+				for q := 0; q < 48; q++ {
+					k++
+					if !c.Mine(k) {
+						continue
+					}
+					src := day.Add(time.Duration(q) * 30 * time.Minute).In(loc)
+					_, wantOff := src.Zone()
+					for zi := range c18CtxZones {
+						ctx := types.ContextWithTZ(context.Background(), c18CtxZones[zi])
+						v := types.NewTimestampTZ(ctx, src)
+						c.Eval(1)
+						_, gotOff := v.GoTime().Zone()
+						cs := h.Case{Kind: "named-zone-source", Zone: zn, Extra: map[string]string{"instant": src.UTC().Format(time.RFC3339), "offset": fmt.Sprint(wantOff)}}
+						if !v.GoTime().Equal(src) || gotOff != wantOff {
+							c.Violate("string.iso", h.F("type", "timestamptz", "kind", "named-zone-source"), fmt.Sprintf("NewTimestampTZ of %s (zone %s, offset %d s) = %s (offset %d s): not the same instant and offset", src.Format(time.RFC3339), zn, wantOff, v.String(), gotOff), cs)
+							continue
+						}
+						back, ok := types.ParseTime(ctx, v.String(), -1)
+						if !ok || !sameDT(v, back) {
+							c.Violate("parse.roundtrip", h.F("type", "timestamptz", "kind", "named-zone-source"), fmt.Sprintf("NewTimestampTZ of %s prints %q, which parses to %v", src.Format(time.RFC3339), v.String(), back), cs)
+						} else {
+							c.Held("parse.roundtrip")
+						}
+						// the sibling constructors keep the wall clock
+						if tt := types.NewTimeTZ(src); !tt.GoTime().Equal(time.Date(0, 1, 1, src.Hour(), src.Minute(), src.Second(), src.Nanosecond(), time.FixedZone("", wantOff))) {
+							c.Violate("string.iso", h.F("type", "timetz", "kind", "named-zone-source"), fmt.Sprintf("NewTimeTZ of %s = %s", src.Format(time.RFC3339), tt.String()), cs)
+						} else {
+							c.Held("string.iso")
+						}
+					}
+				}
+			}
+		}
+	}
+	// values that come out of ParseTime with a precision (rounded: the carry may
+	// run over the second, the minute, midnight, the month, the year): they
+	// print, re-parse and JSON-round-trip like any other value
+	{
+		texts := []string{"23:59:59.9999996", "23:59:59.5", "23:59:59.95", "12:59:59.9999999", "00:00:00.4", "23:59:59.4", "23:59:59.9999996+01:00", "23:59:59.5-08:00", "00:00:00.5+05:30",
+			"2023-12-31T23:59:59.9999996", "2024-02-28T23:59:59.5", "2023-03-26T01:59:59.9999999", "1999-12-31 23:59:59.95", "2023-12-31T23:59:59.9999996+05:30", "2024-02-29T23:59:59.5Z", "0001-01-01T00:00:00.4Z", "2023-06-30T23:59:59.999999999-12:00"}
+		k := 0
+		for _, tx := range texts {
+			for _, prec := range []int{0, 1, 3, 6, 7} {
+				k++
+				if !c.Mine(k) {
+					continue
+				}
+				for zi := range c18CtxZones {
+					ctx := types.ContextWithTZ(context.Background(), c18CtxZones[zi])
+					v, ok := types.ParseTime(ctx, tx, prec)
+					c.Eval(1)
+					if !ok {
+						continue
+					}
+					typ := strings.TrimPrefix(fmt.Sprintf("%T", v), "*types.")
+					cs := h.Case{Kind: "rounded-value", Extra: map[string]string{"text": tx, "precision": fmt.Sprint(prec), "type": typ}}
+					str := v.String()
+					back, ok2 := types.ParseTime(ctx, str, -1)
+					if !ok2 || !sameDT(v, back) {
+						c.Violate("parse.roundtrip", h.F("type", typ, "kind", "rounded-value"), fmt.Sprintf("ParseTime(%q, precision %d) prints %q, which parses to %v (%v): not an equal value", tx, prec, str, back, ok2), cs)
+					} else {
+						c.Held("parse.roundtrip")
+					}
+					js, err := json.Marshal(v)
+					nv, um := newOf(strings.ToLower(typ))
+					if err != nil || um.UnmarshalJSON(js) != nil || !sameDT(v, nv) {
+						c.Violate("json.roundtrip", h.F("type", typ, "kind", "rounded-value"), fmt.Sprintf("ParseTime(%q, precision %d) = %v encodes as %s, which decodes to %v", tx, prec, v, js, nv), cs)
+					} else {
+						c.Held("json.roundtrip")
+					}
+				}
+			}
+		}
+	}
 	// wall-clock readings that do not exist in some daylight-saving zone (or
 	// exist twice), handled under a context carrying that very zone
 	for gi, g := range [][6]int{{2024, 3, 10, 2, 30, 0}, {2024, 3, 31, 2, 30, 0}, {2024, 10, 6, 2, 30, 0}, {2024, 9, 8, 0, 30, 0}, {2024, 11, 3, 1, 30, 0}, {2024, 10, 27, 2, 30, 0}, {2024, 4, 7, 2, 30, 0}, {2024, 3, 10, 2, 0, 0}, {2024, 3, 10, 2, 59, 59}} {
